@@ -21,9 +21,9 @@ TCase == /\ Ev("codec.case") /\ UNCHANGED pc
               \cup (IF E.max_read > AllocBound THEN {<<"decoder asked for more than the bounded length at once", l>>} ELSE {})
 TRound == /\ Ev("codec.roundtrip") /\ UNCHANGED pc
           /\ Flag(E.mismatches = 0, "decode(encode(m)) differs from m")
-\* a peer that sends a malformed or unexpected first message is disconnected, others are unaffected
+\* a peer that sends a malformed or unexpected first message, or a frame that does not decode after login, is disconnected; others are unaffected
 TFirst == /\ Ev("codec.first") /\ UNCHANGED pc
-          /\ Flag(E.closed /\ E.healthy_ok /\ E.sessions = 1, "malformed / unexpected first message: peer not disconnected, or another session affected")
+          /\ Flag(E.closed /\ E.healthy_ok /\ E.sessions = 1, "malformed / unexpected message (first on a connection, or after login): peer not disconnected, or another session affected")
 \* a well-formed message whose body is within the frame limit is accepted by a running server
 TLarge == /\ Ev("codec.large") /\ UNCHANGED pc
           /\ Flag(E.body > MaxLen \/ E.accepted, "a well-formed message within the 10240-byte frame limit was refused by the running server")
